@@ -185,9 +185,9 @@ def orbOf (g : Sym) (v : Array Nat) : Option Orb :=
      | _ => none)
   | _ => none
 
-/-- the two decidable monitors under which `Props/C07.lean : private_orbifold_symbol_agrees` shows
-    that the generator's private key is on the list iff this orbifold is: C08's parity monitor
-    (evenness of 2 − χ − #boundaries for weakly oriented symbols) and "a
+/-- the decidable monitors under which `Props/C07.lean : private_orbifold_symbol_agrees` shows
+    that the generator's private key is on the list iff this orbifold is: the symbol is defined
+    (C08's parity monitor, kept here although it is a theorem by now) and "a
     symbol that is not weakly oriented has at least one cross-cap" — facts of surface topology
     about the handle / cross-cap count of `delaney2d::orbifold_symbol`, not about the generator -/
 def monitorsOf (g : Sym) (v : Array Nat) : Bool :=
